@@ -345,6 +345,9 @@ func (a *auditor) image(name string, cfgb []byte, descs []gdesc, layers [][]byte
 			if uc, err := decompress(layers[i]); err == nil {
 				if tarMTs[descs[i].MediaType] != "" || descs[i].MediaType == "" {
 					id = layerID(uc)
+					if id == "X" && knownInput(uc) {
+						id = "NEW" // a stream this driver handed to WithLayerAddTar that is not a tar with a marker file
+					}
 				} else {
 					id = "A" // not a file system layer (artifact content)
 				}
